@@ -213,15 +213,18 @@ def run(ctx: Ctx) -> None:
         # tie of the modelled block sub-parser (mini_total is a theorem about exactly this model)
         from . import miniblock
         miniblock.tie(ctx, drv, 2500 if quick else 60000)
+        miniblock.tie_quote(ctx, drv, 3000 if quick else 80000)
     finally:
         drv.close()
     ctx.partial += [
         "the rule contracts (K1-K5) are hypotheses of block_total/inline_total. They are PROVED (Props/C01b.lean: ruleOK_code, "
         "ruleOK_fence, ruleOK_hr, ruleOK_heading, ruleOK_paragraph, paragraph_always) for the block rules code, fence, hr, "
         "heading and paragraph, whose models are tied to the real rules by whole-document differential runs under all 16 "
-        "rule subsets (`miniblock`), giving the unconditional theorem mini_total for that sub-parser; and for the inline "
-        "rules text/newline/escape. For all other rules (containers, table, reference, html_block, lheading; the other "
-        "inline rules) the contracts are monitored on every call on the implementation, not proved",
+        "rule subsets (`miniblock`), giving the unconditional theorem mini_total for that sub-parser; for the container "
+        "rule blockquote (Props/C01c.lean: quoteScan_ok, restore_lines, quote_shape, ruleOK_blockquote by induction on the "
+        "nesting budget), giving q_total for the sub-parser with block quotes nested to any depth (model tied by `qblock`); "
+        "and for the inline rules text/newline/escape. For all other rules (list, table, reference, html_block, lheading; "
+        "the other inline rules) the contracts are monitored on every call on the implementation, not proved",
         "renderer totality follows from structural recursion on tokens in the renderer model (C04); CPython's real stack "
         "limit, memory and `re` engine time are not exhibited by the model: covered by the per-input time limit and the deep-"
         "nesting probes",
